@@ -10,7 +10,8 @@ EXTENDS PipeConns, Json
 
 VARIABLE hist
 
-GenSizes == @@SIZES@@
+GenWSizes == @@WSIZES@@
+GenRSizes == @@RSIZES@@
 PrintAll == @@PRINTALL@@     \* FALSE (simulation): print a behaviour only when it has MaxOps calls
 
 GenInit == Init /\ hist = <<>>
